@@ -1,6 +1,8 @@
 /-
 C13 — the algebra of `Model/SparqlSpec.lean` with five *named, switchable deviations*, one per
-known finding (findings/C13.json).  `evalQueryD {}` (no deviation) is the specification itself
+finding (findings/C13.json: `projLeak`, `graphPrebind`, `ebvStrict` are known findings; `emptyNamed`
+and `orStrict` were repaired in /repo by d984918 and e4da433 and are kept so that a regression is
+named in the report — nothing matches them any more, so it is a VIOLATION).  `evalQueryD {}` (no deviation) is the specification itself
 (`SophiaProofs.C13.evalD_none`); the driver uses the other instances only to *attribute* an
 oracle failure: a failure is a known finding only if the engine's answer is exactly the answer of
 the specification under a (smallest) set of these deviations.  Nothing here is used as an oracle.
